@@ -235,6 +235,7 @@ Fixpoint adecls_ok (p : pt) (en : env) (mm : mmap) : bool :=
   | Multi ms subs => decls_ok ms en mm && forallb (fun s => adecls_ok s en mm) subs
   | Arith ms l r => decls_ok ms en mm && adecls_ok l en mm && adecls_ok r en mm
   | Map pm mml _ b => adecls_ok b (menv pm en) (mcomp mml mm)
+  | Rev b | Pass b | Single b => adecls_ok b en mm
   | _ => false
   end.
 (* build_waveform of an atomic tree: parts first (in order), then the composite's own waveform constructor *)
@@ -248,6 +249,7 @@ Fixpoint awf_chk (p : pt) (en : env) : option rkind :=
       orelse (awf_chk l en) (orelse (awf_chk r en)
              (guard_k (negb (plays l en) || negb (plays r en) || Qceqb (tdur l en) (tdur r en)) KAtomicDur))
   | Map pm _ cs b => orelse (guard_k (forallb (pcon_ok en) cs) KConstraint) (awf_chk b (menv pm en))
+  | Rev b | Pass b | Single b => awf_chk b en
   | _ => Some KAtomicDur
   end.
 
